@@ -27,6 +27,10 @@ from beanquery.parser import ast
 D = decimal.Decimal
 EXTRA_TARGETS = ['Proofs/RegistryTie.vo']
 ASSUMPTIONS = [
+    'end-to-end streams: a statement on which Python\'s date arithmetic raises OverflowError("date value out of range") is counted '
+    '(histogram key date_overflow_counted_not_compared), not compared - the model\'s dates are unbounded; a statement the implementation '
+    'rejects with the GROUP BY coverage error although two of its non-aggregate targets compile to EQUAL nodes is reported under the '
+    'listed finding rejected:duplicate-grouped-target (the model keeps the provenance of folded constants apart)',
     'the connection has the Beancount source attached (a default `postings` table exists); Connection() without a source '
     'compiles column-free statements against table None and fails at execution -- outside the modelled environment',
     'statement ASTs are the parser\'s output (they carry parseinfo; target names and positional placeholder order come from it)',
@@ -1452,6 +1456,32 @@ def observe_e2e(case):
     return rec
 
 
+def equal_nonaggregate_targets(case):
+    """do two non-aggregate targets of the statement compile to EQUAL nodes (EvalNode.__eq__)? Each target is compiled
+    alone (SELECT <target> FROM #v), so this does not depend on how the compiler reconciles them."""
+    e_ = env()
+    conn = e_['conn']
+    conn.tables['v'] = impl.make_table('v', [(c, E2E_PY[t]) for c, t in E2E_COLS], [dec_row(r) for r in case['rows']])
+    try:
+        node = bq_parser.parse(case['text'])
+        targets = getattr(node, 'targets', None)
+        if not isinstance(targets, (list, tuple)):
+            return False
+        compiled = []
+        for t in targets:
+            text = t.expression.text
+            try:
+                q = bq_compiler.compile(conn, bq_parser.parse(f'SELECT {text} FROM #v'), py_params(case.get('params')))
+            except Exception:  # noqa: BLE001  (an aggregate / a target that does not compile alone)
+                continue
+            tg = q.c_targets[0]
+            if not tg.is_aggregate:
+                compiled.append(tg.c_expr)
+        return any(a == b for i, a in enumerate(compiled) for b in compiled[i + 1:])
+    except Exception:  # noqa: BLE001
+        return False
+
+
 def e2e_schema_coq():
     return (f'(mk_table "v" {clist([f"({q(c)}, {q(t)})" for c, t in E2E_COLS])} '
             f'{clist([q(c) for c, _ in E2E_COLS])} false)')
@@ -1492,9 +1522,19 @@ def run_e2e(tier, rng):
             rows_compared += 1
             nr = len(r['result'][2])
             hist['rows'][str(min(nr, 5))] = hist['rows'].get(str(min(nr, 5)), 0) + 1
+        if r['phase'] == 'raise' and 'OverflowError' in str(r['msg']) and 'date value out of range' in str(r['msg']):
+            # datetime.date arithmetic leaving year 1..9999 raises in Python; the model's dates are unbounded (ASSUMPTIONS):
+            # counted, not compared
+            hist['date_overflow_counted_not_compared'] = hist.get('date_overflow_counted_not_compared', 0) + 1
+            continue
         if norm(m) != norm(r['result']):
             short = c['text'] if len(c['text']) < 200 else c['text'][:197] + '...'
             sig = 'e2e:' + short
+            if (r['phase'] == 'compile' and 'must be covered by GROUP-BY' in str(r['msg']) and m[0] == 0
+                    and equal_nonaggregate_targets(c)):
+                # the listed finding of this check (a GROUP BY key is reconciled with the FIRST equal target only): here two
+                # different-looking constant targets fold to equal compiled nodes; the model keeps their provenance apart
+                sig = 'rejected:duplicate-grouped-target'
             if sig not in violations and len(violations) < 3:
                 violations[sig] = core.Violation(
                     'end-to-end', f'{short!r} params={c.get("params")} over rows {c["rows"]}: implementation '
